@@ -1,6 +1,7 @@
 package main
 
 import (
+	pongo2 "github.com/flosch/pongo2/v6"
 	"fmt"
 	"sort"
 	"strings"
@@ -342,7 +343,7 @@ type c09gen struct {
 	vars   []string
 }
 
-var c09Seqs = []string{"l0", "l1", "l3", "ls", "s0", "su", "m1", "mm", "nn", "l6"}
+var c09Seqs = []string{"l0", "l1", "l3", "ls", "s0", "su", "m1", "mm", "nn", "l6", "lb"}
 var c09Scalars = []string{"a", "b", "z", "e", "t", "f"}
 
 func c09Ctx(r *RNG) map[string]cv {
@@ -360,6 +361,8 @@ func c09Ctx(r *RNG) map[string]cv {
 		"m1": {k: "map", keys: []string{"k"}, xs: []cv{{k: "int", i: 7}}},
 		"mm": {k: "map", keys: []string{"b", "a", "c"}, xs: []cv{{k: "int", i: 1}, {k: "str", s: "x"}, {k: "int", i: 3}}},
 		"nn": {k: "nil"},
+		// integers that only differ beyond the precision of a float64
+		"lb": {k: "list", xs: []cv{{k: "int", i: 1<<60 + 2}, {k: "int", i: 1 << 60}, {k: "int", i: 1<<60 + 1}, {k: "int", i: -(1 << 60)}, {k: "int", i: 1<<60 + 3}}},
 		"a":  {k: "int", i: int64(r.Intn(3))}, "b": {k: "int", i: int64(r.Intn(3))}, "z": {k: "int", i: 0},
 		"e": {k: "str", s: ""}, "t": {k: "bool", i: 1}, "f": {k: "bool", i: 0},
 	}
@@ -543,7 +546,39 @@ func c09Src(ns []cnode) string {
 	return sb.String()
 }
 
+// c09Fixed: loops whose source is written in the template (list literals), and a loop body that
+// includes another template (the loop's bindings are a context like any other)
+func c09Fixed(cfg Config, res *Result) {
+	files := map[string]string{"row.tpl": "[{{ k }}{{ forloop.Counter }}]"}
+	for _, c := range []struct{ src, want string }{
+		{"{% for x in [10, 9, 2] sorted %}{{ x }} {% endfor %}", "2 9 10 "},
+		{"{% for x in [10, 9, 2] reversed sorted %}{{ x }} {% endfor %}", "10 9 2 "},
+		{"{% for x in [10, 9, 2] reversed %}{{ x }}{{ forloop.Counter }} {% endfor %}", "21 92 103 "},
+		{`{% for x in ["b", "a", "c"] sorted %}{{ x }}{% endfor %}`, "abc"},
+		{"{% for x in [2.5, 1.5, 10.0] sorted %}{{ x }} {% endfor %}", "1.500000 2.500000 10.000000 "},
+		{"{% set ll = [3, 20, 100] %}{% for x in ll reversed sorted %}{{ x }},{% endfor %}", "100,20,3,"},
+		{`{% for k in m sorted %}{% include "row.tpl" %}{% endfor %}`, "[a1][b2]"},
+		{`{% for k, v in m sorted %}{% include "row.tpl" %}{{ v }}{% endfor %}`, "[a1]1[b2]2"},
+		{`{% for k in m sorted %}{% for j in l %}{% include "row.tpl" %}{% endfor %}{% endfor %}`, "[a1][a2][b1][b2]"},
+	} {
+		res.Cases++
+		pc := ProgCase{Src: c.src, Loaders: []map[string]string{files}}
+		set, _ := pc.buildSet()
+		tpl, err := set.FromString(c.src)
+		got := execRes{}
+		if err != nil {
+			got.err = err.Error()
+		} else {
+			got = execOnce(tpl, pongo2.Context{"m": map[string]int{"a": 1, "b": 2}, "l": []int{7, 8}})
+		}
+		if got.err != "" || got.pan != "" || got.out != c.want {
+			res.add(Finding{Kind: "oracle", Proj: "reference", Sig: "c09-fixed", Case: c.src, Impl: got.String(), Model: "ok " + hxb(c.want)})
+		}
+	}
+}
+
 func suiteC09(cfg Config, res *Result) {
+	defer c09Fixed(cfg, res)
 	res.Rule = "generated nestings (depth <= 4) of if/elif/else, ifequal, ifnotequal, firstof, for (+empty, reversed, sorted, key/value over maps), cycle and ifchanged over lists of length 0..6, strings incl. multi-byte, maps (single key, or sorted), nil; every forloop field incl. Parentloop at every depth can be printed; each rendered with a freshly compiled template and compared with a reference interpreter of the generated tree (for = map over the ordered items, forloop = function of (i, n, parent)) and with the Lean model; non-trivial = tree containing a for; distinct by (tree, context)"
 	n := 5000
 	if cfg.Thorough() {
